@@ -70,7 +70,7 @@ def run(ctx):
         gen_cases(ctx, d, par, par=True)
     seq_lines = sorted(seq)
     deep_lines = sorted(deeper)
-    cap = 5000 if q else 40000
+    cap = 5000 if q else 10 ** 9
     sampled = len(deep_lines) > cap
     if sampled:
         deep_lines = rng.sample(deep_lines, cap)
